@@ -20,7 +20,7 @@ def _worker(task):
         labels = sorted(set().union(*[S.labels(f)[0] | S.labels(f)[1] for f in phis]) | set(task.get('extra_labels', ())))
         present = [l for l in labels if l not in task.get('drop_labels', ())]
         k = task['k']
-        lab = EN.EvalLab(chk, task['n'], k, task.get('c', 0), labels=labels, max_perm=task.get('max_perm', 1), timeout_ms=task.get('timeout_ms', 60000))
+        lab = EN.EvalLab(chk, task['n'], k, task.get('c', 0), labels=labels, max_perm=task.get('max_perm', 1), order_mode=task.get('order_mode', 'perm'), timeout_ms=task.get('timeout_ms', 60000))
         texts = task.get('texts') or [S.show(f) for f in phis]
         loops = task.get('self_loops', True)
         if task.get('assume_no_steady'): lab.pre.append(lab.M.steady() == 0)
